@@ -195,6 +195,10 @@ def finish(cx, t0, explain=None):
     nviol = 0
     known_hit = []
     lines = []
+    if os.environ.get('GMV_LIST'):
+        for ob in cx.obs:
+            if ob.rule.startswith(os.environ['GMV_LIST']) or os.environ['GMV_LIST'] == 'all':
+                print('  [%s] %s: %s  @%s' % (ob.status, ob.key, ob.what, ob.where))
     for ob in cx.obs:
         if ob.status == HOLDS:
             continue
